@@ -179,7 +179,7 @@ def finish(prop, tier, level, merged, rule, assumptions, t0, extra_cov=None, min
             json.dump({"property": prop, "signature": v["signature"], "detail": v["detail"], "seed": sd, "tier": tier, "case": v.get("replay")}, f, indent=1)
         print("VIOLATION property=%s replay=%s" % (prop, path))
         print("  signature: %s" % v["signature"])
-        print("  " + (v["detail"] or "").replace("\n", "\n  ")[:1500])
+        print("  " + (v["detail"] or "").replace("\n", "\n  ")[:500])
         rc = 1
     distinct = len(merged.nontrivial)
     if rc == 0:
